@@ -192,6 +192,9 @@ def run(tier, seed):
             nref = (n + sched[0] - 1) // sched[0] + 1
             for i in range(0, nref):
                 add(f, data, "io", f"I/O error at refill {i} (chunks of {sched[0]})", {"kind": "chunks", "sched": sched}, {"fail_at_refill": i})
+                # other kinds of I/O error; Interrupted and WouldBlock may be retried by the reading layers and never surface
+                kind = ("interrupted", "connection_reset", "would_block", "unexpected_eof")[i % 4]
+                add(f, data, "io", f"I/O error ({kind}) at refill {i} (chunks of {sched[0]})", {"kind": "chunks", "sched": sched}, {"fail_at_refill": i, "fail_kind": kind})
     obs = common.run_harness(cmds, per_cmd_timeout=30)
     events, owner = [], []
     counts = {}
@@ -209,7 +212,9 @@ def run(tier, seed):
             continue
         ev = C05.read_event(f["values"], o["results"], damage)
         if damage == "io" and not any(r["r"] == "err" for r in o["results"]):
-            ev["damage"] = "intact" if c["reader"].get("fail_at_refill", 0) * c["reader"]["sched"][0] >= len(f["bytes"]) + 10 ** 9 else "io"
+            # no error surfaced: legitimate for a retryable kind (the read is then simply repeated) - the file must read as intact
+            retryable = c["reader"].get("fail_kind") in ("interrupted", "would_block")
+            ev["damage"] = "intact" if retryable or c["reader"].get("fail_at_refill", 0) * c["reader"]["sched"][0] >= len(f["bytes"]) + 10 ** 9 else "io"
         events.append(ev)
         owner.append(i)
     nch = min(common.NCPU, max(1, len(events) // 300))
